@@ -12,6 +12,7 @@ from vf import lattice as lt
 from vf import x_sides as xs
 from vf.core import Cell, Ctx, Violation
 from vf.foamdict import FoamParseError
+from vf.refmodel import rodrigues
 
 warnings.simplefilter("ignore")
 
@@ -41,6 +42,9 @@ ASSUMPTIONS = [
     "other combinations (empty vs non-empty slave set without master, two different non-empty slave sets, a corner "
     "carrying both master and slave of one pair) are counted, not judged, except that they must not depend on the "
     "insertion order",
+    "operations may be built elsewhere with their patches and moved into place by translate / rotate / mirror (also on "
+    "a copy); a patch stays on the image of the face it was put on (Operation.mirror swaps bottom and top face, so the "
+    "image's corner (j+4)%8 is the source's corner j); positions then agree to rounding (<= 1e-8 at 4e6 from the origin)",
     "a patch name is never master in one pair and slave in another; in the first run every pair is declared before "
     "assemble(); the second run follows a drawn history (pairs / operations declared after a first assemble(), then "
     "clear()+assemble() or backport(); or a patch_list.is_slave() query before the pairs) and must give the partition "
@@ -66,6 +70,29 @@ def _internal_faces(dims, cells) -> List[Tuple[int, int, int]]:
                 d = lt.cell_index(dims, *n)
                 if d in sel:
                     out.append((c, d, a))
+    return out
+
+
+_DIRS = [[1.0, 0.0, 0.0], [0.0, 1.0, 0.0], [0.0, 0.0, 1.0], [0.6, 0.8, 0.0], [0.0, -0.6, 0.8], [0.48, 0.6, -0.64]]
+
+
+def _pre(draw, k: int) -> List[Dict[str, Any]]:
+    """How each operation is brought into place: built there directly, or built elsewhere WITH its patches and then
+    moved there by translate / rotate / mirror (one half of a model built with all patches, the other half obtained by
+    op.copy().mirror(...)).  `origin` is relative to the assembly's offset."""
+    out = []
+    for _ in range(k):
+        kind = draw(st.sampled_from(["none", "none", "none", "translate", "rotate", "mirror", "mirror"]))
+        pre: Dict[str, Any] = {"kind": kind}
+        if kind == "translate":
+            pre["d"] = [draw(st.floats(-5.0, 5.0)) for _ in range(3)]
+        elif kind != "none":
+            pre["axis"] = draw(st.sampled_from(_DIRS))
+            pre["origin"] = [draw(st.floats(-2.0, 2.0)) for _ in range(3)]
+            pre["copy"] = draw(st.booleans())
+            if kind == "rotate":
+                pre["angle"] = draw(st.floats(-3.0, 3.0))
+        out.append(pre)
     return out
 
 
@@ -133,7 +160,7 @@ def edge_case(draw):
     _far_away(draw, case, "edge")
     case.update(pairs=pairs, patches=patches, merge_first=draw(st.booleans()),
                 order2=list(draw(st.permutations(list(range(k))))), jit=[], miss=[], mode="edge",
-                history=_history(draw, k, len(pairs)))
+                history=_history(draw, k, len(pairs)), pre=_pre(draw, k))
     return case
 
 
@@ -181,6 +208,7 @@ def c05_case(draw, mode: str):
         miss=[],
         mode=mode,
         history=_history(draw, k, len(pairs)),
+        pre=_pre(draw, k),
     )
     if mode == "tolerance":
         dims = case["dims"]
@@ -271,15 +299,46 @@ def build(case, order: List[int], chop: bool = False, history: Any = None):
     mesh is returned assembled; {"kind": "query-first"} only asks patch_list.is_slave() before the pairs are declared."""
     cpos = corner_positions(case)
     ops = []
+    pres = case.get("pre") or [{"kind": "none"}] * len(case["orient"])
+    off = np.asarray(case.get("offset") or [0.0, 0.0, 0.0])
     for oi, rot in enumerate(case["orient"]):
-        pts = [cpos[(oi, i)] for i in range(8)]
+        target = np.array([cpos[(oi, i)] for i in range(8)])
+        pre = pres[oi]
+        # where the operation is built so that the transformation puts its corner i on target[i]
+        if pre["kind"] == "translate":
+            pts = target - np.asarray(pre["d"])
+        elif pre["kind"] == "rotate":
+            o = off + np.asarray(pre["origin"])
+            pts = (target - o) @ rodrigues(pre["axis"], -pre["angle"]).T + o
+        elif pre["kind"] == "mirror":
+            # Operation.mirror reflects the points and swaps bottom and top face: corner j of the source becomes
+            # corner (j + 4) % 8 of the image
+            o, n = off + np.asarray(pre["origin"]), np.asarray(pre["axis"])
+            image = target - 2.0 * np.outer((target - o) @ n, n)
+            pts = np.array([image[(j + 4) % 8] for j in range(8)])
+        else:
+            pts = target
         op = cb.Loft(cb.Face(pts[:4]), cb.Face(pts[4:]))
         if chop:
             for ax in range(3):
                 op.chop(ax, count=1)
+        # patches are declared before the operation is moved; they belong to the (image of the) face they were put on:
+        # a mirror image carries on its bottom what the source had on its top, the four lateral sides keep their names
+        for pi, g, name in case["patches"]:
+            if pi == oi:
+                side = xs.local_side_name(rot, g)
+                if pre["kind"] == "mirror":
+                    side = {"top": "bottom", "bottom": "top"}.get(side, side)
+                op.set_patch(side, name)
+        if pre["kind"] != "none":
+            src = op.copy() if pre.get("copy") else op
+            if pre["kind"] == "translate":
+                op = src.translate(pre["d"])
+            elif pre["kind"] == "rotate":
+                op = src.rotate(pre["angle"], pre["axis"], list(off + np.asarray(pre["origin"])))
+            else:
+                op = src.mirror(pre["axis"], list(off + np.asarray(pre["origin"])))
         ops.append(op)
-    for oi, g, name in case["patches"]:
-        ops[oi].set_patch(xs.local_side_name(case["orient"][oi], g), name)
     mesh = cb.Mesh()
     kind = (history or {}).get("kind", "none")
     if kind == "query-first":
@@ -431,6 +490,17 @@ def label_case(case, ref: Ref, stats, ctx: Ctx) -> None:
         # informative only: iteration order of such a set under the pinned hash seed (what an unsorted key would see)
         if any(list(set(key[1])) != sorted(key[1]) for key in shared_multi):
             ctx.label("two-slave-corner-shared:set-order-not-alphabetical")
+    pres = case.get("pre") or []
+    for kind in sorted({p["kind"] for p in pres if p["kind"] != "none"}):
+        ctx.label("built-elsewhere:" + kind)
+    paired = ref.masters | ref.slaves
+    for oi, p in enumerate(pres):
+        if p["kind"] == "mirror":
+            sides = {xs.local_side_name(case["orient"][oi], g) for (pi, g), name in ref.final.items() if pi == oi and name in paired}
+            if sides & {"left", "right"}:
+                ctx.label("mirrored-op-with-merged-patch-on-left-or-right")
+            if sides & {"top", "bottom"}:
+                ctx.label("mirrored-op-with-merged-patch-on-top-or-bottom")
     if case.get("offset"):
         ctx.label("far-from-origin" if max(abs(v) for v in case["offset"]) >= 1e5 else "offset-1e3")
     if case["jit"]:
